@@ -67,6 +67,8 @@ class Bus:
         base = ["a", "a/b", "a/b/c", "A/b", "ab", "b", "b/a", "ü/x", "x", "B", "a/B/c", "abc", "c/a"]
         if o["colliding"]:
             base = base[:5] + colliding_paths(eo, o["colliding"], prefix="k")
+        if o.get("rich"):
+            base = base + ["", " ", "p" * 150, "\u00e4\u00f6\u00fc\u20ac\U0001F600", "a\tb\"c\\d", "\u0001", "q/" * 40, "A/B", "a/b/"]
         self.paths = o["paths"] or base
         self.npeer = 0
         self.peers = []
@@ -75,6 +77,20 @@ class Bus:
     # -- helpers -----------------------------------------------------
     def note(self, *a):
         self.log.append(list(a))
+
+    def val(self, c):
+        v = self.S.next_val(c)
+        if self.o.get("rich") and self.rng.random() < 0.6:
+            from .hostile import rnd_json
+            x = rnd_json(self.rng)
+            if len(json.dumps(x)) < 160:
+                r = self.rng.random()
+                if r < 0.3:
+                    return [v, x]
+                if r < 0.5:
+                    return [x, v, None]
+                v["x"] = x
+        return v
 
     def alive(self):
         return [c for c in self.peers if c.alive()]
@@ -136,7 +152,7 @@ class Bus:
         path = rng.choice(self.paths)
         pr = {"path": path}
         if rng.random() < 0.75:
-            pr["value"] = S.next_val(c)
+            pr["value"] = self.val(c)
             if rng.random() < 0.15:
                 pr["fetchOnly"] = True
         if self.o["timeouts"] and rng.random() < 0.3:
@@ -175,7 +191,7 @@ class Bus:
             path = rng.choice(sorted(S.elements))
         else:
             path = rng.choice(self.paths)
-        pr = {"path": path, "value": S.next_val(c)}
+        pr = {"path": path, "value": self.val(c)}
         self.note("change", c.name, pr)
         S.request(c, "change", pr, chunks=pick_chunks(rng))
 
@@ -244,7 +260,7 @@ class Bus:
             m = "call" if m == "set" else "set"
         pr = {"path": path}
         if m == "set":
-            pr["value"] = S.next_val(c)
+            pr["value"] = self.val(c)
         else:
             pr["args"] = rng.choice([[S.next_val(c)], {"k": S.next_val(c)}])
         if self.o["timeouts"] and rng.random() < 0.3:
